@@ -436,8 +436,9 @@ def run_case(c):
                 if any(abs(x - w) > 1e-9 * s_ for x, w, s_ in zip(p, want, sc)):
                     rec["oracle"].append("centre-formula")
                 st2, back = attempt(lambda: mesh.point2index(p))
-                obs["roundtrip"] = js(back) if st2 == "ok" else back
-                if st2 != "ok" or list(back) != list(i):
+                obs["roundtrip"] = [int(a) for a in back] if st2 == "ok" else back
+                if st2 != "ok" or list(back) != list(i) or \
+                        not all(isinstance(a, (int, np.integer)) and not isinstance(a, bool) for a in back):
                     rec["oracle"].append("roundtrip")
         else:
             obs = dict(err=p)
@@ -456,7 +457,7 @@ def run_case(c):
         tf = float(F(m["tf"]))
         pq = [F(x) for x in c["p"]]
         if st == "ok":
-            obs = dict(idx=js(idx), isin=obs_in)
+            obs = dict(idx=[int(a) for a in idx], isin=obs_in, idx_types=sorted({type(a).__name__ for a in idx}))
             coq_obs = f"(Some {g.zl(obs['idx'])})"
             if not all(isinstance(a, (int, np.integer)) and not isinstance(a, bool) for a in idx):
                 rec["oracle"].append("index-not-integer")
